@@ -16,7 +16,8 @@ CFG = {
         "C13_ring_closing_guard_vacuous", "C13_ring_simplicity_not_preserved",
         "C13_simple_collinear_ordered", "C13_genPos_imp_colOrdered",
         "C13_ring_open_chain_simple", "C13_polygon_open_chains_simple", "C13_neartie_band_sound",
-        "C13_budget_from_rounding", "C13_float_test_exact_outside_band",
+        "C13_budget_from_rounding", "C13_float_test_exact_outside_band", "C13_rne_std_model", "C13_float_test_exact_rne",
+        "C13_tie_rneM", "C13_sqrtHyp_iff",
     ]],
     "trusted_base": [
         "Lean 4.33.0 kernel; axioms of every theorem printed by #print axioms must be within {propext, Classical.choice, Quot.sound}",
